@@ -477,7 +477,7 @@ where
     T::Inner: Number,
     Option<T::Inner>: Cast<f64>,
 {
-    fn visit<V: tevec::prelude::Vec1View<T>>(&mut self, name: &str, v: &V) {
+    fn visit<V: tevec::prelude::Vec1View<T> + mc_adapt::backends::SliceRead<T>>(&mut self, name: &str, v: &V) {
         let (f, w, mp, path) = (self.f, self.w, self.mp, self.path);
         let o = catch(|| call_v1::<V, T, Vec<f64>, f64>(f, v, w, mp, path).cells());
         self.out.push((name.to_string(), o));
@@ -497,7 +497,7 @@ where
     T: IsNone,
     T::Inner: Number,
 {
-    fn visit<V: tevec::prelude::Vec1View<T>>(&mut self, name: &str, v: &V) {
+    fn visit<V: tevec::prelude::Vec1View<T> + mc_adapt::backends::SliceRead<T>>(&mut self, name: &str, v: &V) {
         let (f, w, mp) = (self.f, self.w, self.mp);
         let b: Vec<f64> = enc_vec(self.second);
         let o = catch(|| call_v2::<V, T, Vec<f64>, f64, Vec<f64>, f64>(f, v, &b, w, mp, Path::Ret).cells());
